@@ -1,8 +1,153 @@
 import PyPhysim.Model.Proto
-open PyPhysim.Proto
+import PyPhysim.Model.C20
+open PyPhysim.Proto PyPhysim.LinAlg
 
--- stub: replaced when the C20 model is written
+/-!
+Line-protocol driver of the C20 model, instantiated at binary64.
+Matrices travel row-major, each scalar as two binary64 bit patterns
+(`re,im` — real inputs have `im = 0`), comma separated; shapes are decimal.
+External kernel results (`inv`, `qr`, `svd`, `eig(h)`, `argsort`) are inputs.
+-/
+
+/-- binary64 complex number -/
+structure CF where
+  re : Float
+  im : Float
+
+instance : Zero CF := ⟨⟨0, 0⟩⟩
+instance : One CF := ⟨⟨1, 0⟩⟩
+instance : Add CF := ⟨fun a b => ⟨a.re + b.re, a.im + b.im⟩⟩
+instance : Sub CF := ⟨fun a b => ⟨a.re - b.re, a.im - b.im⟩⟩
+instance : Mul CF := ⟨fun a b => ⟨a.re * b.re - a.im * b.im, a.re * b.im + a.im * b.re⟩⟩
+instance : Div CF := ⟨fun a b =>
+  let d := b.re * b.re + b.im * b.im
+  ⟨(a.re * b.re + a.im * b.im) / d, (a.im * b.re - a.re * b.im) / d⟩⟩
+instance : Conj CF := ⟨fun a => ⟨a.re, -a.im⟩⟩
+instance : RSqrt CF := ⟨fun a => ⟨Float.sqrt a.re, 0⟩⟩
+
+instance : Zero Float := ⟨0.0⟩
+instance : One Float := ⟨1.0⟩
+instance : RSqrt Float := ⟨Float.sqrt⟩
+instance : Transc Float :=
+  { log10 := Float.log10, pow10 := fun x => Float.pow 10.0 x, acos := Float.acos, sin := Float.sin }
+
+def toMat (m n : Nat) (xs : Array CF) : Mat CF m n :=
+  fun i j => xs.getD (i.val * n + j.val) ⟨0, 0⟩
+
+def toVec (n : Nat) (xs : Array CF) : Fin n → CF := fun i => xs.getD i.val ⟨0, 0⟩
+
+def pairs : List Float → Option (List CF)
+  | [] => some []
+  | re :: im :: rest => (pairs rest).map (fun t => ⟨re, im⟩ :: t)
+  | _ => none
+
+/-- parse `count` complex numbers (2·count floats) -/
+def parseC (count : Nat) (s : String) : Option (Array CF) := do
+  let fs ← parseFloatList? s
+  let ps ← pairs fs
+  if ps.length = count then some ps.toArray else none
+
+def showC (z : CF) : String := showFloat z.re ++ "," ++ showFloat z.im
+
+def showMat {m n : Nat} (A : Mat CF m n) : String :=
+  ",".intercalate ((List.finRange m).flatMap (fun i => (List.finRange n).map (fun j => showC (A i j))))
+
+def showE {β} (f : β → String) : Except PyErr β → String
+  | .ok b => f b
+  | .error e => "error:" ++ toString e
+
+def nat3 (a b c : String) : Option (Nat × Nat × Nat) := do
+  let a ← a.toNat?; let b ← b.toNat?; let c ← c.toNat?
+  pure (a, b, c)
+
+def emptyOk (s : String) : String := if s = "-" then "" else s
+
 def handle : List String → String
+  -- proj m k A G  ->  gram | P | oP
+  | ["proj", m, k, a, g] => Id.run do
+      let some (m, k, _) := nat3 m k "0" | return "bad-op"
+      let some A := parseC (m * k) a | return "bad-op"
+      let some G := parseC (k * k) g | return "bad-op"
+      let A := toMat m k A; let G := toMat k k G
+      return showMat (gram A) ++ "|" ++ showMat (projWith G A) ++ "|" ++ showMat (oprojWith G A)
+  -- apply m c Q M -> project | reflect
+  | ["apply", m, c, q, mm] => Id.run do
+      let some (m, c, _) := nat3 m c "0" | return "bad-op"
+      let some Q := parseC (m * m) q | return "bad-op"
+      let some M := parseC (m * c) mm | return "bad-op"
+      let Q := toMat m m Q; let M := toMat m c M
+      return showMat (project Q M) ++ "|" ++ showMat (reflect Q M)
+  -- chord2 m p q A B GA GB -> distance
+  | ["chord2", m, p, q, a, b, ga, gb] => Id.run do
+      let some (m, p, q) := nat3 m p q | return "bad-op"
+      let some A := parseC (m * p) a | return "bad-op"
+      let some B := parseC (m * q) b | return "bad-op"
+      let some GA := parseC (p * p) ga | return "bad-op"
+      let some GB := parseC (q * q) gb | return "bad-op"
+      return showFloat (chordal2 (toMat p p GA) (toMat q q GB) (toMat m p A) (toMat m q B)).re
+  -- chord m p q Q1 Q2 -> distance | svd argument
+  | ["chord", m, p, q, a, b] => Id.run do
+      let some (m, p, q) := nat3 m p q | return "bad-op"
+      let some A := parseC (m * p) a | return "bad-op"
+      let some B := parseC (m * q) b | return "bad-op"
+      let Q1 := toMat m p A; let Q2 := toMat m q B
+      return showFloat (chordal Q1 Q2).re ++ "|" ++ showMat (pangleArg Q1 Q2)
+  -- angles S -> angles | distance
+  | ["angles", s] => Id.run do
+      let some S := parseFloatList? (emptyOk s) | return "bad-op"
+      let ang := principalAngles S
+      return showList showFloat ang ++ "|" ++ showFloat (chordalFromAngles ang)
+  -- whiten n L V -> W
+  | ["whiten", n, l, v] => Id.run do
+      let some n := n.toNat? | return "bad-op"
+      let some L := parseC n l | return "bad-op"
+      let some V := parseC (n * n) v | return "bad-op"
+      return showMat (whiten (toVec n L) (toMat n n V))
+  -- uisd n invA diag -> new inverse | pivots
+  | ["uisd", n, a, d] => Id.run do
+      let some n := n.toNat? | return "bad-op"
+      let some A := parseC (n * n) a | return "bad-op"
+      let some fs := parseFloatList? (emptyOk d) | return "bad-op"
+      let some ds := pairs fs | return "bad-op"
+      let A := toMat n n A
+      return showE showMat (updateInvSumDiag A ds) ++ "|" ++ showList showC (uisdPivots 0 ds A)
+  -- peig / leig ncols n perm -> kept indexes
+  | ["peig", c, n, perm] => Id.run do
+      let some (c, n, _) := nat3 c n "0" | return "bad-op"
+      let some p := parseNatList? (emptyOk perm) | return "bad-op"
+      return showE (showList toString) (peigIdx c n p)
+  | ["leig", c, n, perm] => Id.run do
+      let some (c, n, _) := nat3 c n "0" | return "bad-op"
+      let some p := parseNatList? (emptyOk perm) | return "bad-op"
+      return showE (showList toString) (leigIdx c n p)
+  -- lrsv c n S -> idx0 | idx1 | S1
+  | ["lrsv", c, n, s] => Id.run do
+      let some (c, n, _) := nat3 c n "0" | return "bad-op"
+      let some S := parseFloatList? (emptyOk s) | return "bad-op"
+      let (i0, i1) := lrsvIdx c n
+      return showList toString i0 ++ "|" ++ showList toString i1 ++ "|" ++
+        showE (showList showFloat) (lrsvS S c n)
+  -- gpcm m c k U S VH -> out
+  | ["gpcm", m, c, k, u, s, vh] => Id.run do
+      let some (m, c, k) := nat3 m c k | return "bad-op"
+      let some U := parseC (m * m) u | return "bad-op"
+      let some S := parseC (min m c) (emptyOk s) | return "bad-op"
+      let some VH := parseC (c * c) vh | return "bad-op"
+      if hk : k ≤ c then
+        return showMat (gpcm (toMat m m U) (toVec (min m c) S) (toMat c c VH) k hk)
+      else return "out-of-model"
+  | ["db2lin", x] => match parseFloat? x with
+      | some x => showFloat (dB2Linear x) | none => "bad-op"
+  | ["lin2db", x] => match parseFloat? x with
+      | some x => showFloat (linear2dB x) | none => "bad-op"
+  | ["dbm2lin", x] => match parseFloat? x with
+      | some x => showFloat (dBm2Linear x) | none => "bad-op"
+  | ["lin2dbm", x] => match parseFloat? x with
+      | some x => showFloat (linear2dBm x) | none => "bad-op"
+  | ["snr2ebn0", x, b] => match parseFloat? x, parseFloat? b with
+      | some x, some b => showFloat (snrToEbN0 x b) | _, _ => "bad-op"
+  | ["ebn02snr", x, b] => match parseFloat? x, parseFloat? b with
+      | some x, some b => showFloat (ebN0ToSnr x b) | _, _ => "bad-op"
   | _ => "bad-op"
 
 def main : IO Unit := runDriver handle
